@@ -14,6 +14,13 @@ na = {}       # id -> reason
 def claim(pid, text, note, design):
     claims[pid] = dict(text=text, note=note, design=design)
 
+claim("C01",
+      "The end-to-end obligation is decided as step lemmas over the real code: (1) fan-out of admitted alerts to every live subscriber in order (map order of subscribers explored); (2) insert-or-create never "
+      "loses an alert while flush/destroy/maintenance interleave; (3) the real aggregation-group run loop on a virtual clock: first flush <= group_wait after ingestion (at once for old alerts), every later flush "
+      "exactly one group_interval after the previous tick, whatever the deliveries do (deliver, fail, hang until the deadline), every flush lists the firing alert; (4) with the receiver's real stage and the real "
+      "notification log, failing deliveries record nothing and every following interval retries until one succeeds, after which the unchanged group is quiet.",
+      "The composition (timers fire, goroutines are scheduled, HTTP, config reload, cluster wait) is assumed, not verified; bounds: 2-4 alerts, 2 subscribers, 3-4 flushes, 1 route, preemption bound 1 (quick) / 2. "
+      "The must-notify direction of the dedup decision is C04's oracle. " + TRUSTED, "4 C01")
 claim("C02",
       "Bounded symbolic model checking of the real silence code over histories: a silence created through Set, then k slots each with an arbitrary clock advance and an "
       "arbitrary operation (new silence, API edit, expire, replicated merge of an arbitrary version, GC, snapshot reload, alert-GC callback); after every slot "
@@ -33,6 +40,11 @@ claim("C05",
       "One flush of a real aggregation group with 2-3 alerts whose ends lie anywhere around the flush instant, a delivery that takes symbolic time, may fail, and during which an alert may fire "
       "again: what is handed over as resolved/firing, that firing alerts cannot resolve in flight, deletion iff delivered+resolved+unmodified, destruction iff empty, re-fired alert reported firing next time.",
       "Bounds: <=3 alerts, 2 flushes, one re-fire. send_resolved filtering is covered under C20, the 'nothing to send' decision under C04. Timers are outside. " + TRUSTED, "4 C05")
+claim("C06",
+      "Group labels and group membership for every group_by setting and label-set pair; group keys identical across two independently built dispatchers, depending only on the matcher path and the group labels; "
+      "exactly one group per matching route; the /alerts/groups view equals the partition; no split / no lost alert / consistent counters under interleavings of two ingestions, a destroying flush and maintenance.",
+      "Bounds: 3 group_by labels, 5 label sets, a 5-route tree, 4 concurrent steps, preemption bound 1 (quick) / 2 (thorough). Counterexample schedules are confirmed natively only as linearised twins (whole steps in "
+      "sequence); an interleaving that needs a mid-step switch is reported as inconclusive (exit 2), not as a pass. " + TRUSTED, "4 C06")
 claim("C07",
       "Route.Match on trees built by the real NewRoute is compared with a reference restated from the property for every tree shape up to 5 nodes, every assignment "
       "of per-node matcher outcomes (symbolic label values) and continue flags; option inheritance is checked for all presence profiles with symbolic timer values.",
